@@ -2,11 +2,40 @@
 from tools.vlib import *
 
 PID = "C10"
-READY = False
+READY = True      # on the repaired tree: the coordinator must apply fixes/C10-split-255-terminates.patch and
+                  # fixes/C10-combine-distinct-indices.patch; on the unrepaired /repo the check reports exactly
+                  # split-terminates, reject-duplicate and reject-zero-index (see notes/C10.md)
 MANIFEST = {
-    "level_text": "TODO",
-    "level_note": "TODO",
-    "technique": "TODO",
+    "level_text": "Lean 4 theorems (EphVerif.C10.*) about a Lean model of Shamir.cpp, for all inputs: (1) gf256_field / gf_div / "
+                  "gf_mul_is_polynomial_multiplication: bytes with gf_add (xor) and the log/exp-table gf_mul form a field (closure, "
+                  "commutativity, associativity, units, distributivity, inverses), gf_div throws exactly on a zero divisor and otherwise "
+                  "returns the quotient, and the table product equals shift-and-add multiplication modulo x^8+x^4+x^3+x^2+1; packaged as a "
+                  "Mathlib Field instance. (2) split: for every secret, every 1 <= t <= n <= 255 (n = 255 included) and every outcome of "
+                  "the random draws, split terminates with n shares, indices exactly 1..n, each share byte the evaluation of a polynomial "
+                  "of degree < t with the secret byte as constant term (split_uint8_counter_never_exits proves that the original uint8_t "
+                  "loop never exits at n = 255). (3) combine: any selection of those shares in any order whose first t members have "
+                  "distinct indices reconstructs the secret (Lagrange interpolation at 0 via Mathlib's Lagrange.interpolate). (4) "
+                  "reject_too_few / reject_bad_indices / combine_value_only_if_wellformed / combine_wellformed_ok: fewer than t shares, "
+                  "a repeated index or index 0 among the shares used give invalid-argument whatever the bytes are; a value is presented "
+                  "only for well-formed sets; combine never hangs and does not throw on well-formed sets. (5) secrecy: for any t-1 "
+                  "distinct non-zero indices and any candidate secret byte the map coefficient vector -> share-value vector is a bijection. "
+                  "Tie to the code: all numeric literals of Shamir.cpp, the width of the share-index counter and both tables (dumped from the "
+                  "compiled build_exp_table/build_log_table) are regenerated on every run and the proofs depend on them "
+                  "(tables_match_source); the real Shamir.cpp (anonymous-namespace GF functions included) runs in-process against the "
+                  "compiled model: the complete gf_mul / gf_div tables, split over boundary/random (t, n) pairs and, thorough tier, the whole "
+                  "triangle 1 <= t <= n <= 255, combine on random subsets/orders and malformed sets, with the Lean specification "
+                  "(field axioms on the exhibited table, polynomial-consistency of the shares, spec-field Lagrange reconstruction) judging "
+                  "every line.",
+    "level_note": "Holds on the tree with the two C10 fix patches applied (the model follows the repaired code). Trusted: Lean kernel and "
+                  "the Mathlib modules imported (Algebra.Field.Defs, LinearAlgebra.Lagrange); the hand transcription of gf_mul/gf_div/"
+                  "evaluate_polynomial/interpolate/split/combine into Lean (checked by the differential run; 7 hand-made mutants and the "
+                  "2 original defects were all caught); std::random_device is a parameter of the model (theorems quantify over every "
+                  "draw sequence) and is replaced by a deterministic stream in the harness; its entropy quality and the informal step "
+                  "'bijection => uniform and independent of the secret' are outside the proof. A split hang is recognised in the harness "
+                  "by a 2 s CPU-time limit of a forked child. combine(…, 0) (threshold 0, outside the property's domain) returns the "
+                  "all-zero secret in code and model and is not judged.",
+    "technique": "Lean 4 proof (finite-field structure via log/exp bijection and xtime linearity, Mathlib Lagrange interpolation) + regenerated "
+                 "constants/tables + model/implementation differential correspondence with Lean monitor",
 }
 
 SRC = "src/crypto/Shamir.cpp"
